@@ -66,6 +66,11 @@ package core
 //@   ensures [wf.above]    result == nil ==> @gcAbove(@select(ghost(kvhas), ref(chain.groups)), chain.count)
 //@   ensures [wf.distinct] result == nil ==> @gcDistinct(@store(@gids, old(chain.count), old(bytes(group.Id))), chain.count)
 //@   ensures [count] result == nil ==> chain.count == old(chain.count) + 1 && chain.lastGroup == group && group.GroupHeight == old(chain.count)
+//@   # the sqlite group index is written last: if that insert fails the function panics (callers up the stack recover
+//@   # and the node keeps running, or it restarts from the store) - the group store is complete and well-formed by then
+//@   ensures [head!onpanic]  @gcHead(@select(ghost(kv), ref(chain.groups)), @select(ghost(kvhas), ref(chain.groups)), @store(@gids, old(chain.count), old(bytes(group.Id))), chain.count, bytes("gcurrent"), bytes("gcount"))
+//@   ensures [index!onpanic] @gcIdx(@select(ghost(kv), ref(chain.groups)), @select(ghost(kvhas), ref(chain.groups)), @store(@gids, old(chain.count), old(bytes(group.Id))), chain.count)
+//@   ensures [count!onpanic] chain.count == old(chain.count) + 1 && chain.lastGroup == group
 //@   ensures [fail] result != nil ==> ghost(kv) == old(ghost(kv)) && ghost(kvhas) == old(ghost(kvhas)) && chain.count == old(chain.count)
 //@   modifies chain.count, chain.lastGroup, group.GroupHeight, ghost(kv), ghost(kvhas)
 
